@@ -134,6 +134,18 @@ Definition closeconn_ok (full : list act) : bool :=
   Bool.eqb (has (fun a => match a with ACloseConn => true | _ => false end) full)
            (has (fun a => match a with AFirstReturn GDisconnect => true | _ => false end) full).
 
+(* the chunks a direction read are consecutive stretches of its source stream i |-> a*i+b, starting at its first
+   byte: what the loops read is a prefix of what the sender put on the stream (for the client stream: behind the
+   request, model/C06_Request.v `served`); a request phase that takes payload bytes off the stream shows up as a
+   first offset above 0 *)
+Fixpoint contig (d : dir) (next : N) (tr : list obs) : bool :=
+  match tr with
+  | [] => true
+  | ORead d' _ _ _ off n _ :: t =>
+      if dir_eqb d d' then (off =? next) && contig d (next + n) t else contig d next t
+  | _ :: t => contig d next t
+  end.
+
 Inductive case :=
 | CRelay (m : mode) (tr : list obs) (complete : bool) (tx rx : N) (su_len su_dg sd_len sd_dg : N).
 
@@ -143,6 +155,7 @@ Definition check (c : case) : bool :=
       match replay ((0, 0), (0, 0)) (relay_init m) tr [] with
       | None => false
       | Some (s, full) =>
+          contig Up 0 tr && contig Down 0 tr &&
           monitor m full &&
           (sTx s =? tx) && (sRx s =? rx) &&
           (blen (snkb Up full) =? sul) && ((2 * SmallChunk <? sul) || (dg32 (snkb Up full) =? sud)) &&
